@@ -70,6 +70,7 @@ def sftpOps (maxReq : Nat) : Ops Srv where
       let k := min data.length maxReq
       (srvWrite s realpos.toNat (data.take k), .ok k)
   bound s realpos := s.content.length - realpos.toNat
+  seekable := true
 
 /-- `_get_size()`: `stat().st_size`, 0 if anything goes wrong (closed handle) -/
 def getSize (s : Srv) : Int := if s.hopen then s.content.length else 0
@@ -82,11 +83,15 @@ def seek (o : Ops Srv) (f : BF Srv) (off : Int) (whence : Nat) : Res Srv Unit :=
     let p : Int := if whence == 0 then off else if whence == 1 then f.pos + off else getSize f.s + off
     ({ f with pos := p, realpos := p, rbuf := [] }, .ok ())
 
-/-- `SFTPFile.truncate(size)`: an FSETSTAT, nothing else (buffers and positions untouched) -/
-def truncate (f : BF Srv) (size : Int) : Res Srv Unit :=
-  if size < 0 then (f, .error (.stream eStruct))
-  else if !f.s.hopen then (f, .error (.stream eServer))
-  else ({ f with s := srvTruncate f.s size.toNat }, .ok ())
+/-- `SFTPFile.truncate(size)`: flush buffered writes, drop read-ahead, then an FSETSTAT -/
+def truncate (o : Ops Srv) (f : BF Srv) (size : Int) : Res Srv Unit :=
+  match flush o f with
+  | (f, .error e) => (f, .error e)
+  | (f, .ok ()) =>
+    let f := { f with rbuf := [], realpos := f.pos }
+    if size < 0 then (f, .error (.stream eStruct))
+    else if !f.s.hopen then (f, .error (.stream eServer))
+    else ({ f with s := srvTruncate f.s size.toNat }, .ok ())
 
 /-- `SFTPFile.close()` -/
 def close (o : Ops Srv) (f : BF Srv) : Res Srv Unit :=
@@ -136,7 +141,7 @@ def sstep (o : Ops Srv) (f : BF Srv) : FOp → BF Srv × Out
   | .seek off wh => outOf (fun _ => .unit) (seek o f off wh)
   | .tell => (f, .pos (BufFile.tell f))
   | .flush => outOf (fun _ => .unit) (BufFile.flush o f)
-  | .truncate n => outOf (fun _ => .unit) (truncate f n)
+  | .truncate n => outOf (fun _ => .unit) (truncate o f n)
   | .close => outOf (fun _ => .unit) (close o f)
 
 def srun (o : Ops Srv) : BF Srv → List FOp → BF Srv × List Out
